@@ -44,7 +44,7 @@ def run_literal(desc):
         entries = [p for p, _d, _l in model.all_entries(follow=False, max_depth=6)]
         n = 0
         for segs in FC.literal_variants(entries):
-            for cfg in ({}, {'mark': True}, {'globstar': True, 'dot': True}, {'nodir': True}):
+            for cfg in ({}, {'mark': True}, {'globstar': True, 'dot': True}, {'nodir': True}, {'icase': True}):
                 if any(isinstance(x, str) for x in segs) and not cfg.get('globstar'):
                     continue
                 for trail in (False, True) if len(segs) <= 2 else (False,):
